@@ -3,6 +3,7 @@ import TongoProofs.Lemmas.HashmapPut
 import TongoProofs.Lemmas.HashmapSigned
 import TongoProofs.Lemmas.HashmapAug
 import TongoProofs.Lemmas.HashmapPruned
+import TongoProofs.Lemmas.HashmapSound
 /-! # Property C05 — dictionaries (Hashmap / HashmapE) preserve their key→value mapping
 
 Model: `TongoModel/Hashmap.lean` (mirror of tlb/hashmap.go after the repairs recorded in known_findings.txt).
@@ -267,6 +268,56 @@ theorem aug_decode_any_valid {Y : Type} (skipX : List Bool → List Cell → Out
   simp only [unmarshalAugE, ty_ordinary, bits_ordinary, refs_ordinary, h0, h1, if_false, atree_toCell_ty]
   rw [mapInnerAug_toCell skipX C pay xpay hskip n hn t hdec n [] (n + 1) hv (by simp) (Nat.lt_succ_self n)]
   simp [hsk]
+
+/-! ## No silent corruption: arbitrary slices, colliding keys, the typed layer -/
+
+/-- Soundness of Marshal for ANY slice of `n`-bit keys, duplicates allowed (e.g. two typed keys outside their domain that
+truncate to the same bits): whenever Marshal succeeds the keys were pairwise distinct and Unmarshal returns exactly the
+given entries in ascending key-bit order. Colliding keys therefore make Marshal fail; they never overwrite or drop
+OTHER entries. -/
+theorem marshal_sound (C : Codec V) (pay : V → List Bool × List Cell) (n : Nat) (kvs : List (Key × V))
+    (hw : ∀ kv ∈ kvs, kv.1.length = n) (hfit : ∀ kv ∈ kvs, Fits C pay n kv.2) (c : Cell)
+    (h : marshalE C n kvs = .ok c) :
+    (keysOf kvs).Nodup ∧ unmarshalE C n c = .ok (sortKV kvs) := by
+  have hnd : (keysOf kvs).Nodup := by
+    cases kvs with
+    | nil => simp [keysOf]
+    | cons x rest =>
+      have hmax : maxKeyLen (x :: rest) = n := maxKeyLen_eq n _ (by simp) hw
+      simp only [marshalE, marshal, List.isEmpty_cons, Bool.false_eq_true, if_false, hmax] at h
+      cases he : encodeMap C (n + 1) (sortKV (x :: rest)) (n : Int) with
+      | ok r =>
+        have hp := sortKV_perm (x :: rest)
+        have hs := encodeMap_ok_strict C (n + 1) n _ r (fun kv hkv => hw kv (hp.mem_iff.mp hkv))
+          (sortKV_weak n _ hw) he
+        exact (hp.map Prod.fst).nodup (sortedBy_nodup lexLt lexLt_irrefl _ hs)
+      | err e => rw [he] at h; cases h
+      | panic p => rw [he] at h; cases h
+  refine ⟨hnd, ?_⟩
+  obtain ⟨c', h1, h2, _⟩ := (hashmapE_roundtrip C pay n kvs hnd hw hfit).2
+  rw [h1] at h
+  cases h
+  exact h2
+
+/-- the typed layer, integer keys inside their domain: `WriteInt` writes the two's complement encoding the model uses -/
+theorem encIntKey_in_range (n : Nat) (v : Int) (hn : 2 ≤ n) (hlo : -(2 ^ (n - 1) : Int) ≤ v) (hhi : v < (2 ^ (n - 1) : Int)) :
+    ∃ k, encIntKey n v = .ok k ∧ k.length = n ∧ Bits.bitsToInt k = v :=
+  encIntKey_inRange n v hn hlo hhi
+
+/-- `NewHashmapE(keys, values)` with as many values as keys is the list-of-pairs dictionary of the model; with fewer
+values than keys Marshal is an error (never a wrong tree) and Items() panics with an index error -/
+theorem slices_agree (C : Codec V) (n : Nat) (keys : List Key) (values : List V) :
+    (values.length = keys.length → marshalSlicesE C n keys values = marshalE C n (keys.zip values) ∧
+      itemsSlices keys values = .ok (keys.zip values)) ∧
+    (values.length < keys.length → (marshalSlicesE C n keys values).isErr = true ∧
+      (itemsSlices keys values).isPanic = true) :=
+  ⟨slices_eq C n keys values, slices_short C n keys values⟩
+
+/-- BitsN keys: `bytes.Compare` on the Go byte arrays is exactly the ascending bit order of the encoded keys, so for
+these types `Put`'s slice order is already the order `encodeMap` needs -/
+theorem bytes_compare_is_bit_order (a b : List UInt8) (h : a.length = b.length) :
+    ltBytes a b = lexLt (Bits.bytesToBits a) (Bits.bytesToBits b) :=
+  ltBytes_eq_lexLt a b h
 
 /-! ## Cell capacity -/
 
